@@ -331,6 +331,31 @@ func runCall(facade any, c qcall) (res qresult, rawErr error) {
 	return
 }
 
+// abandonQueries runs some of the calls with a context that the client cancels at a generated observation (an HTTP request
+// abandoned while the node is answering it). The answers are not judged; what matters is the state the node is left in.
+func abandonQueries(rt *rapid.T, facade any, calls []qcall) int {
+	n := 0
+	for _, c := range calls {
+		if rapid.IntRange(0, 3).Draw(rt, "abandonThisQuery") != 0 {
+			continue
+		}
+		args := append([]reflect.Value{}, c.Args...)
+		has := false
+		for i, a := range args {
+			if a.Type().Implements(tCtx) || a.Type() == tCtx {
+				args[i] = reflect.ValueOf(context.Context(newScriptedCtx(rapid.IntRange(1, 5).Draw(rt, "abandonAtObservation"))))
+				has = true
+			}
+		}
+		if !has {
+			continue
+		}
+		_, _ = runCall(facade, qcall{Method: c.Method, Args: args, Desc: c.Desc})
+		n++
+	}
+	return n
+}
+
 func runBattery(facade any, calls []qcall) []qresult {
 	out := make([]qresult, len(calls))
 	for i, c := range calls {
